@@ -240,6 +240,13 @@ class GuardedList:
     def __iter__(self):
         return iter(self.concretize())
 
+    def __next__(self):
+        # a merged generator expression handed to next(): behaves as the generator it stands for
+        it = self.__dict__.get('_it')
+        if it is None:
+            it = self.__dict__['_it'] = iter(self.concretize())
+        return next(it)
+
     def __len__(self):
         return len(self.concretize())
 
